@@ -184,6 +184,23 @@ fn merge_into_guidance<I: Interner>(
     infer.canonicalize(interner, aggr_subst).quantified
 }
 
+/// Verification hook: see `merge_into_guidance`.
+#[cfg(chalk_verif)]
+pub fn verif_merge_into_guidance<I: Interner>(
+    interner: I,
+    root_goal: &Canonical<InEnvironment<Goal<I>>>,
+    guidance: Canonical<Substitution<I>>,
+    answer: &Canonical<ConstrainedSubst<I>>,
+) -> Canonical<Substitution<I>> {
+    merge_into_guidance(interner, root_goal, guidance, answer)
+}
+
+/// Verification hook: see `is_trivial`.
+#[cfg(chalk_verif)]
+pub fn verif_is_trivial<I: Interner>(interner: I, subst: &Canonical<Substitution<I>>) -> bool {
+    is_trivial(interner, subst)
+}
+
 fn is_trivial<I: Interner>(interner: I, subst: &Canonical<Substitution<I>>) -> bool {
     // A subst is trivial if..
     subst
